@@ -41,9 +41,12 @@ def write_games(const_sum):
     open(os.path.join(DIR, "game.efg"), "w").write("\n".join(lines) + "\n")
 
 
-def run_cli(exe, args, stdin_file=None):
+def run_cli(exe, args, stdin_file=None, timeout=120):
     inp = open(stdin_file).read() if stdin_file else None
-    p = subprocess.run([exe] + args, input=inp, capture_output=True, text=True, timeout=300)
+    try:
+        p = subprocess.run([exe] + args, input=inp, capture_output=True, text=True, timeout=timeout)
+    except subprocess.TimeoutExpired:
+        return -9, None, "timed out"
     out = None
     if p.returncode == 0:
         try:
@@ -180,7 +183,13 @@ def confirm_c16():
             bad.append(f"-c {clip}: a profile with higher regret than the unpruned one was printed")
     # -t 0 means unlimited: with a reachable threshold it must run until the threshold
     runs += 1
-    rc, out, se = run_cli(exe, ["-i", jf, "-m", "full", "-p", "1", "-d", "vanilla", "-t", "0", "-r", "0.05"])
+    rc, out, se = run_cli(exe, ["-i", jf, "-m", "full", "-p", "1", "-d", "vanilla", "-t", "0", "-r", "0.05"], timeout=30)
     if rc != 0 or out is None or not (out["regret"] < 0.05):
-        bad.append("-t 0 -r 0.05: did not run until the regret threshold")
+        bad.append(f"-t 0 -r 0.05: did not run until the regret threshold and stop there (exit {rc} {se})")
+    # -r stops early: a huge threshold must give the one-iteration result
+    runs += 1
+    r1 = run_cli(exe, ["-i", jf, "-m", "full", "-p", "1", "-d", "vanilla", "-t", "1"])
+    r2 = run_cli(exe, ["-i", jf, "-m", "full", "-p", "1", "-d", "vanilla", "-t", "500", "-r", "1000"])
+    if r1[1] is None or r2[1] is None or r1[1] != r2[1]:
+        bad.append("-t 500 -r 1000 does not print what -t 1 prints (the regret threshold is not what stops the solve)")
     return bool(bad), {"runs": runs, "violations": len(bad), "examples": bad[:5]}
